@@ -35,6 +35,13 @@ OUTSIDE = "ill-framed headers; headers arriving without credit; more than 5 head
           "beyond the bound (safety: counts and numbers; reachability by cover twins)"
 
 
+def d1_rst_src(m, reset):
+    """usb_reset (with the link up) one cycle ago"""
+    r = Signal(name="kf_rst_d1")
+    m.d.ss += r.eq(reset)
+    return r
+
+
 class HeaderRxHarness(Harness):
     domains = ("ss",)
 
@@ -72,6 +79,9 @@ class HeaderRxHarness(Harness):
         if free_enable:
             self.a_quiet = self.assume("quiet_while_down")
             self.a_idle_up = self.assume("idle_at_reenable")
+            # scenario predicates of the recorded C38 findings (known_findings.json)
+            self.kf_cmd = self.kf("reset_during_command")
+            self.kf_disp = self.kf("reset_at_dispatch")
 
     def elaborate(self, platform):
         m = Module()
@@ -258,6 +268,32 @@ class HeaderRxHarness(Harness):
                 self.a_quiet.eq(~(span | src.ev_hpstart) | (enable & last_en & ~reset)),
                 self.a_idle_up.eq(~up_ev | (~dut.source.valid & ~second)),
             ]
+            # ---- scenario predicates (sticky until the next link-down / reset event re-classifies):
+            # reset_during_command: the latest down/reset event fell into a cycle in which a link command was on the
+            #   wire or was started in the next cycle (the DUT's command FSM was not in DISPATCH_COMMAND);
+            # reset_at_dispatch: the latest usb_reset (link up) came exactly two cycles before a new command's LCSTART
+            #   was first offered (the FSM dispatched from the state it was discarding in that very cycle)
+            d1 = Signal(name="kf_d1")
+            d2 = Signal(name="kf_d2")
+            d2_rst = Signal(name="kf_d2_rst")
+            v1 = Signal(name="kf_v1")
+            v2 = Signal(name="kf_v2")
+            lost = Signal(name="kf_lost")
+            disp = Signal(name="kf_disp_r")
+            vnow = dut.source.valid
+            m.d.ss += [d1.eq(down_ev), d2.eq(d1), d2_rst.eq(d1 & d1_rst_src(m, reset)), v1.eq(vnow), v2.eq(v1)]
+            set_lost = Signal(name="kf_set_lost")
+            set_disp = Signal(name="kf_set_disp")
+            m.d.comb += [set_lost.eq(d1 & (v1 | vnow)), set_disp.eq(d2_rst & ~v2 & ~v1 & vnow)]
+            with m.If(down_ev):
+                m.d.ss += [lost.eq(0), disp.eq(0)]
+            with m.Else():
+                with m.If(set_lost):
+                    m.d.ss += lost.eq(1)
+                with m.If(set_disp):
+                    m.d.ss += disp.eq(1)
+            m.d.comb += [self.kf_cmd.eq(lost | set_lost), self.kf_disp.eq(disp | set_disp)]
+
             # what was being sent when the link went down (cover twins for the crash points)
             busy = dut.source.valid
             was_down = Signal(name="was_down")
